@@ -19,6 +19,9 @@ vars == <<run, idx, ok, st>>
 
 InitState(fam) == << >>        \* empty vector / empty update log
 
+\* every k-th element, starting with the first (Iterator::step_by)
+StepSeq(s, k) == [i \in 1..((Len(s) + k - 1) \div k) |-> s[k * (i - 1) + 1]]
+
 \* ---- bitenc
 BEExplains(cfg, s, c, r) ==
     CASE c.op = "new"  -> r.st = "ok"
@@ -31,6 +34,10 @@ BEExplains(cfg, s, c, r) ==
            /\ r.iter = s
            /\ r.gets = s \o <<-1, -1>>
            /\ r.huge_nones = 6                    \* six reads at indices up to usize::MAX: all None
+           /\ r.nth_nones = 71 /\ r.nth_in = s    \* iter().nth(n): Some(vec[n]) for n < len, None for n in len..len+70
+           /\ r.pages = s /\ r.npages = (Len(s) + 4) \div 5     \* iter().skip(5p).take(5), p = 0, 1, ...
+           /\ r.step3 = StepSeq(s, 3)
+           /\ r.last = (IF s = << >> THEN -1 ELSE s[Len(s)]) /\ r.count = Len(s)
       [] OTHER -> FALSE
 BEAfter(cfg, s, c) ==
     CASE c.op = "push"        -> Append(s, Masked(c.a.v, cfg.w))
@@ -43,7 +50,9 @@ BEAfter(cfg, s, c) ==
 SIExplains(cfg, s, c, r) ==
     CASE c.op = "new" -> r.st = "ok"
       [] c.op = "from_elem" ->
-           IF c.a.v > 0 /\ c.a.v >= cfg.smax THEN r.st = "panic"      \* documented refusal
+           \* wide type pairs log values as canonical decimal strings (beyond TLC's integers): equality only
+           IF (IF "wide" \in DOMAIN cfg THEN c.a.v = cfg.smax ELSE c.a.v > 0 /\ c.a.v >= cfg.smax)
+           THEN r.st = "panic"                                        \* documented refusal
            ELSE r.st = "ok"
       [] c.op = "push" -> r.st = "ok"
       [] c.op = "set"  -> r.st = "ok" /\ c.a.i < Len(s)
@@ -53,6 +62,7 @@ SIExplains(cfg, s, c, r) ==
            /\ r.iter = s /\ r.dec = s
            /\ r.gets = s /\ r.nones = 0          \* get(i) is Some(vec[i]) for every i < len
            /\ r.beyond_none = 1                  \* get(len) is None
+           /\ r.nth_nones = 9 /\ r.step3 = StepSeq(s, 3)     \* the iterator through nth / step_by
       [] OTHER -> FALSE
 SIAfter(cfg, s, c, r) ==
     CASE c.op = "from_elem" -> IF r.st = "ok" THEN [x \in 1..c.a.n |-> c.a.v] ELSE s
